@@ -257,6 +257,15 @@ def check(tier: str) -> int:
             gen.replay_file(chk, r.workdir / "out.ndjson", "harness.c12", "_judge_src")
         finally:
             r.cleanup()
+    # markup text: tags, raw, comments, whitespace control markers, unbalanced pieces
+    for alpha, n in (("markup-small", 5), ("markup", 5 if tier == "thorough" else 4)):
+        r = tc.enumerate_sources(chk, f"rt-{alpha}", alpha, n, "", "")
+        if r is None:
+            continue
+        try:
+            gen.replay_file(chk, r.workdir / "out.ndjson", "harness.c12", "_judge_src")
+        finally:
+            r.cleanup()
     # literals (LiquidLit, the generator of C20): every spelling of every string and number at every site
     for mode, maxlen in (("str", 2 if tier == "quick" else 3), ("num", 0)):
         r = tlc.run("LiquidLit", tlc.cfg_text(constants={"Mode": f'"{mode}"', "MaxLen": str(maxlen), "Focus": f'"roundtrip-lit-{mode}"'}, invariants=["Export"]),
